@@ -81,3 +81,21 @@ Proof.
     apply in_map_iff. exists (flat_index kd kks 0). split; [rewrite Hu; reflexivity|]. apply in_seq. lia. }
   destruct (pool_window ps (unravel (pl_out_dims ps) oi)); [contradiction|reflexivity].
 Qed.
+
+(* what the compiler accepts for an OrPooling layer (Model/Domain.pool_compile_accepts, the guard in
+   CompiledLogicNet._validate_structure) lies inside the generator theorem's well-formedness condition *)
+From Coq Require Import ZArith.
+From TLX Require Import Model.Domain.
+Theorem pool_compile_accepts_wf : forall ps,
+  Forall (fun n => 0 < n) (pl_dims ps) ->
+  pool_compile_accepts (Z.of_nat (pl_kernel ps)) (Z.of_nat (pl_stride ps)) (Z.of_nat (pl_pad ps))
+                       (map Z.of_nat (pl_dims ps)) = true ->
+  wf_pool ps = true.
+Proof.
+  intros ps Hpos H. unfold pool_compile_accepts in H.
+  repeat rewrite andb_true_iff in H. destruct H as [[[Hk Hs] [_ Hp]] Hall].
+  apply Z.ltb_lt in Hk. apply Z.ltb_lt in Hs. apply Z.leb_le in Hp.
+  apply wf_pool_arith; try assumption; try lia.
+  rewrite forallb_forall in Hall. apply Forall_forall. intros n Hn.
+  specialize (Hall (Z.of_nat n) (in_map Z.of_nat _ _ Hn)). apply Z.geb_le in Hall. lia.
+Qed.
